@@ -339,6 +339,8 @@ class BuiltinMixin:
         if name == "opt_val":
             v = args[0]
             return v.val if isinstance(v, OptV) else v
+        if name == "iter_pos":
+            return args[0].pos
         if name == "strlen":
             return z3.Length(zstr(args[0]))
         if name == "distinct":
